@@ -205,6 +205,70 @@ VCHECK("c02.parsers", 600)
         c.label("typed-parser-admitted");
 }
 
+// Deterministic single-edit sweep (enum engine): every seed x every attribute / text node x {drop, empty, negative,
+// overflow, unknown token}.  "attributes missing, empty, ... non-numeric" applied one at a time to every position the
+// repository's own documents have, so a drift that needs one specific attribute to be empty is reached by construction.
+VCHECK("c02.sweep", 16)
+{
+    auto &corp = xm::corpus();
+    Input in;
+    in.seed = int(t.u(uint32_t(corp.trees.size())));
+    xm::XNode tree = corp.trees[in.seed];
+    QVector<xm::XNode *> nodes;
+    xm::collect(tree, nodes);
+    if (nodes.size() > 60)
+        nodes.resize(60);
+    xm::XNode *n = nodes[int(t.u(uint32_t(nodes.size())))];
+    // positions of this node: its attributes, then its first text child (if any)
+    int textIdx = -1;
+    for (int i = 0; i < n->kids.size(); i++)
+        if (n->kids[i].isText) {
+            textIdx = i;
+            break;
+        }
+    int positions = n->attrs.size() + (textIdx >= 0 ? 1 : 0);
+    if (positions == 0) {
+        c.label("node-without-values");
+        return;
+    }
+    int pos = int(t.u(uint32_t(positions)));
+    static const QStringList values = { QString(), "-1", "99999999999999999999", "zzz-unknown", "0" };
+    uint32_t action = t.u(uint32_t(values.size()) + 1);   // last = drop
+    QString what;
+    if (pos < n->attrs.size()) {
+        if (action == uint32_t(values.size())) {
+            what = QStringLiteral("drop@") + n->attrs[pos].first;
+            n->attrs.remove(pos);
+        } else {
+            what = QStringLiteral("@%1='%2'").arg(n->attrs[pos].first, values[int(action)]);
+            n->attrs[pos].second = values[int(action)];
+        }
+    } else {
+        if (action == uint32_t(values.size()) || values[int(action)].isEmpty()) {
+            what = QStringLiteral("drop-text<%1>").arg(n->name);
+            n->kids.remove(textIdx);
+        } else {
+            what = QStringLiteral("text<%1>='%2'").arg(n->name, values[int(action)]);
+            n->kids[textIdx].text = values[int(action)];
+        }
+    }
+    in.xml = xm::toXml(tree);
+    in.parsed = xu::parseFragment(in.xml);
+    if (!in.parsed.ok())
+        return;
+    in.target = in.parsed.el;
+    in.mutations = 1;
+    in.desc = QStringLiteral("seed#%1 single-edit[%2 on <%3>] target=<%4 xmlns='%5'>").arg(in.seed).arg(what, n->name, in.target.tagName(), in.target.namespaceURI());
+    c.sample([&] { return q(in.desc); });
+    c.nontrivial(vh::fnv(in.xml.toUtf8()));
+    for (const auto &k : codec::all()) {
+        bool core = !strcmp(k.name, "QXmppMessage") || !strcmp(k.name, "QXmppPresence") || !strcmp(k.name, "QXmppIq") || !strcmp(k.name, "QXmppStanza::Error") || !strcmp(k.name, "QXmppDataForm") ||
+            !strcmp(k.name, "QXmppElement");
+        if (k.typed || core)
+            checkCodec(c, k, in);
+    }
+}
+
 // message in the three SCE modes (the statement lists them for message)
 VCHECK("c02.message-modes", 600)
 {
